@@ -92,3 +92,35 @@ func TestSentenceSplitOneLetterSentence(t *testing.T) {
 		t.Fatalf("text lost: %q", all)
 	}
 }
+
+// C13 / R13.10: a size configuration written as a struct literal leaves TokensPerChar zero ("default: 0.25", which
+// EstimateTokens applies). estimatePosition divided by the raw field: +Inf, converted to int the most negative integer,
+// and SplitToSize indexed the text at -2^63.
+func TestSplitWithTokenLimitAndDefaultRatio(t *testing.T) {
+	cfg := rag.SizeConfig{
+		Target: rag.SizeLimit{Value: 40, Unit: rag.SizeUnitTokens, Type: rag.LimitTypeSoft},
+		Max:    rag.SizeLimit{Value: 50, Unit: rag.SizeUnitTokens, Type: rag.LimitTypeHard},
+	}
+	sc := rag.NewSizeCalculatorWithConfig(cfg)
+	text := strings.Repeat("word and another word. ", 60)
+	var pieces []string
+	func() {
+		defer func() {
+			if r := recover(); r != nil {
+				t.Fatalf("SplitToSize panicked: %v", r)
+			}
+		}()
+		pieces = sc.SplitToSize(text, nil)
+	}()
+	if len(pieces) < 2 {
+		t.Fatalf("%d pieces", len(pieces))
+	}
+	if got, want := strings.Join(strings.Fields(strings.Join(pieces, " ")), ""), strings.Join(strings.Fields(text), ""); got != want {
+		t.Errorf("the pieces do not add up to the text")
+	}
+	for _, p := range pieces {
+		if sc.EstimateTokens(p) > 50 {
+			t.Errorf("a piece of %d estimated tokens exceeds the hard maximum of 50", sc.EstimateTokens(p))
+		}
+	}
+}
